@@ -1,7 +1,10 @@
 """E2: explicit-state exploration of engine lifecycle histories on the real objects (C10, C11).
 
 A history is a string of operations, each `<op><obj>` with op in S (setup, script a of the object's kind),
-T (setup, script b), I (iterate), N (iterate_n(2)), P (sample), F (finalize) and obj in {0, 1}.  Live engine
+T (setup, script b), I (iterate), N (iterate_n(2)), P (sample), F (finalize) and obj in {0, 1}; object-lifetime
+operations: G (another engine object of the same kind is created, never set up, and garbage-collected) and R (a NEW
+engine object is set up with script a while the old one is still referenced, then the old one is dropped without
+finalize() and garbage-collected; the history goes on with the new object).  Live engine
 state sits in a C++ global and cannot be copied, so a state is the history that reaches it; only the
 *leaves* of the bounded history tree are executed, every prefix being checked on the way (observers after
 every operation).  Histories are never merged.
@@ -31,7 +34,7 @@ def legal_next(hist, alphabet, nobj):
     """Operations (op, obj) that keep the history lifecycle-respecting."""
     st = ["unset"] * nobj
     for op, o in hist:
-        if op in "ST":
+        if op in "STR":
             st[o] = "live"
         elif op == "F":
             st[o] = "released"
@@ -40,7 +43,7 @@ def legal_next(hist, alphabet, nobj):
         for op in alphabet:
             if st[o] == "unset" and op != "S":
                 continue
-            if st[o] == "released" and op not in "SF":
+            if st[o] == "released" and op not in "SFGR":
                 continue
             out.append((op, o))
     return out
@@ -318,15 +321,31 @@ def check_history(kinds, hist, zyg, variant="plain", twolive_stop=True):
         prefix = hist_str(hist[:q + 1])
         announce("op " + prefix)
         try:
-            ret = apply_op(engines[o], op, scripts[o])
+            if op == "G":
+                import gc
+                ghost = eng.make_engine(kinds[o][0], variant)
+                del ghost
+                gc.collect()
+                ret = None
+            elif op == "R":
+                import gc
+                fresh = eng.make_engine(kinds[o][0], variant)
+                fresh.setup(scripts[o]["S"])
+                engines[o] = fresh           # the last reference to the old object goes away here
+                gc.collect()
+                ret = None
+            else:
+                ret = apply_op(engines[o], op, scripts[o])
         except Exception as e:
             viol.append(("C10:%s:exception:%s" % (pre, op), "history %s: %s raised %s: %s" % (prefix, op, type(e).__name__, e), prefix))
             break
         nops += 1
-        if op == "S":
+        if op in "SR":
             abst[o] = (names[o]["S"], "")
             last_ret[o] = None
             completed_obs[o] = None
+        elif op == "G":
+            pass                         # nothing may change for any object
         elif op == "T":
             abst[o] = (names[o]["T"], "")
             last_ret[o] = None
